@@ -8,9 +8,9 @@ RULE = ("fixed: every (service type gate/chat/room/unknown) x (method behaviour 
         "notify-shaped, unknown method, unknown group, undecodable payload, successful result the serializer cannot encode (+Inf float)) combination once as request and once as notification, "
         "for an unbound routing key and for keys naming chat-1, chat-2, an instance of the wrong type, a missing instance; the six "
         "malformed routes; connect-while-the-front-is-busy followed at once by forwarded requests (F12); the same request id in flight "
-        "twice to different instances; close with requests pending at a back-end; id 2^32-1. random: 1-3 connections, 2-60 pipelined "
+        "twice to different instances; close with requests pending at a back-end; id 2^32-1; SESSION-ID REUSE: every connection is handed an explicit numeric session id through the allocator hook (largest id 2^32-1, the wrap that skips 0, small ids), a connection parks a request at a never-answering back-end handler and closes, a new connection receives the recycled id and uses the same request id, then the time-out arrives; PIPELINED BURST WITH A NON-READING CLIENT: the client stops reading for 1.5 s and pipelines 11000 front-local + 1500 forwarded requests with 4 kB responses (thorough: up to 13000 x 8 kB and 11000 forwarded), >9999 responses pending on one connection (the run tags whether the send queue actually filled: it did), then reads: exactly one response per request id. random: 1-3 connections, 2-60 pipelined "
         "client actions (request 50%, notify 18%, set-routing-key 20%, advance clock past the 30 s forward time-out 5%, close 4%), routes "
-        "drawn over all types/behaviours incl. malformed, ids incl. duplicates and varint boundaries. Every case ends with a drain, a clock "
+        "drawn over all types/behaviours incl. malformed, ids incl. duplicates and varint boundaries. Connections get fresh, recycled (50% when a closed one exists) or - rarely - live-clashing (ignored) session-id slots; half of the closes are preceded by a request parked at a silent back-end handler. Every case ends with a drain, a clock "
         "advance and a sentinel round trip on every open connection. Non-trivial = at least one response was received; distinct = distinct op lists.")
 TRUSTED_BASE = [
     "Coq 8.16.1 kernel + vm_compute (case evaluation, Examples); no native_compute",
@@ -21,6 +21,8 @@ TRUSTED_BASE = [
 ]
 ASSUMPTIONS = [
     "client request ids are in (0, 2^32): ClientMsg.ClientReqId is uint32(msg.ID), an id >= 2^32 would be answered under its low 32 bits (a Request frame with id 0 or a multiple of 2^32 is treated as a notification)",
+    "the id allocator never hands a new connection the numeric id of a LIVE connection (such a connect is ignored in model and harness; uniqueness among live sessions is C05's subject); ids of closed connections are reused freely",
+    "late arrival after close + id reuse is exercised through the 30 s time-out of a parked request (same relay closure as a late genuine reply; late replies as such are covered by the theorems' arbitrary delivery schedules, not by the harness schedule)",
     "a client frame is processed while its session exists (frames racing with the removal of their own session are C05's subject: Process(nil, msg))",
     "handlers complete at most once (completion twice = C13 / F11) and complete synchronously or never in the harness; a front-local handler that keeps its completion forever is not answered (user code; excluded by `expected <> None`)",
     "theorem C02_relayed_unchanged needs `calm`: the clock crosses a forward deadline only when no reply is in flight; otherwise the one response may be the time-out error (C02_one_response / C02_source cover that case)",
